@@ -289,7 +289,110 @@ func genLocks(r *Repo) (string, error) {
 		fmt.Fprintf(&b, "(%s, %s)", CoqString(na[0]), CoqString(na[1]))
 	}
 	b.WriteString("].\n")
+	// every fidRef composite literal of package p9: enclosing function, the expression given to file:, the fields set
+	lits, err := fidRefLiterals(r)
+	if err != nil {
+		return "", err
+	}
+	b.WriteString("(* every fidRef literal: enclosing function, the expression assigned to file:, the fields it sets (sorted) *)\nDefinition fidref_literals : list (string * string * list string) := [")
+	for i, l := range lits {
+		if i > 0 {
+			b.WriteString("; ")
+		}
+		var fs []string
+		for _, f := range l.fields {
+			fs = append(fs, CoqString(f))
+		}
+		fmt.Fprintf(&b, "\n  (%s, %s, [%s])", CoqString(l.fn), CoqString(l.file), strings.Join(fs, "; "))
+	}
+	b.WriteString("].\n")
+	// assignments to the fields that decide whether a fid may be opened / which File it stands for, outside literals
+	var ws []string
+	{
+		fds, err := r.FuncDecls("p9")
+		if err != nil {
+			return "", err
+		}
+		var keys []string
+		for k := range fds {
+			keys = append(keys, k)
+		}
+		sort.Strings(keys)
+		for _, k := range keys {
+			fd := fds[k]
+			if fd.Body == nil {
+				continue
+			}
+			ast.Inspect(fd.Body, func(n ast.Node) bool {
+				as, ok := n.(*ast.AssignStmt)
+				if !ok {
+					return true
+				}
+				for _, l := range as.Lhs {
+					if se, ok := l.(*ast.SelectorExpr); ok {
+						switch se.Sel.Name {
+						case "mode", "opened", "openFlags", "file":
+							ws = append(ws, fmt.Sprintf("(%s, %s)", CoqString(k), CoqString(se.Sel.Name)))
+						}
+					}
+				}
+				return true
+			})
+		}
+	}
+	b.WriteString("(* assignments (outside literals) to a field named mode / opened / openFlags / file: enclosing function, field *)\nDefinition ref_field_writes : list (string * string) := [" + strings.Join(ws, "; ") + "].\n")
 	return b.String(), nil
+}
+
+type fidRefLit struct {
+	fn, file string
+	fields   []string
+}
+
+func fidRefLiterals(r *Repo) ([]fidRefLit, error) {
+	fds, err := r.FuncDecls("p9")
+	if err != nil {
+		return nil, err
+	}
+	var keys []string
+	for k := range fds {
+		keys = append(keys, k)
+	}
+	sort.Strings(keys)
+	var out []fidRefLit
+	for _, k := range keys {
+		fd := fds[k]
+		if fd.Body == nil {
+			continue
+		}
+		var ferr error
+		ast.Inspect(fd.Body, func(n ast.Node) bool {
+			cl, ok := n.(*ast.CompositeLit)
+			if !ok || cl.Type == nil || types.ExprString(cl.Type) != "fidRef" {
+				return true
+			}
+			l := fidRefLit{fn: k}
+			for _, el := range cl.Elts {
+				kv, ok := el.(*ast.KeyValueExpr)
+				if !ok {
+					ferr = r.Refuse(el.Pos(), "fidRef literal without field names")
+					return false
+				}
+				name := types.ExprString(kv.Key)
+				l.fields = append(l.fields, name)
+				if name == "file" {
+					l.file = types.ExprString(kv.Value)
+				}
+			}
+			sort.Strings(l.fields)
+			out = append(out, l)
+			return true
+		})
+		if ferr != nil {
+			return nil, ferr
+		}
+	}
+	return out, nil
 }
 
 func init() { register(Generator{Name: "LockGen", Run: genLocks}) }
